@@ -14,10 +14,12 @@ RULE = (
     "IsUnique, DistinctCount, or both. Oracle: history + model where the model is the implementation with fresh state: the "
     "outcome of the last operation of every history (items, rejections with row numbers, end-of-data result, written text, "
     "counters) must equal the outcome of the same operation on a freshly loaded CID. Quick: all histories of length <= 2 "
-    "plus random ones of length 3-4; thorough: all of length <= 3 plus random ones of length 5-8. A case is the operation "
+    "plus random ones of length 3-4; thorough: all of length <= 3 plus random ones of length 5-8. Plus pairs of runs (reader / writer over the three "
+    "data sets) that overlap in time on one CID - random interleavings of their steps (open, one row per step, close), lockstep (copying a reader's "
+    "rows into a writer, two files side by side) and one run executed completely while the other is under way - each run compared with the same run alone on a fresh CID. A case is the operation "
     "history, distinct by digest; non-trivial with >= 2 operations."
 )
-ASSUMPTIONS = ["only sequential histories (no two validators alive and used in alternation)"]
+ASSUMPTIONS = ["for two runs that overlap in time every step-wise interleaving is a 'sequence of reads and writes performed with one CID object'"]
 
 DATASETS = {
     1: [["a", "1"], ["b", "2"]],
@@ -251,6 +253,91 @@ def check_history(ctx, cid_kind, history, compare_all=False):
                 return
 
 
+# ---------------------------------------------------------------------------------- overlapping runs
+class Run(object):
+    """One run (reader in yield mode, or writer) that is advanced step by step: open, one row per step, close."""
+
+    def __init__(self, kind, d):
+        self.kind, self.d = kind, d
+        self.items, self.end, self.opened, self.closed, self.exhausted = [], "not closed", False, False, False
+
+    def steps(self):
+        return 2 + len(DATASETS[self.d]) + (1 if self.kind == "reader" else 0)
+
+    def step(self, cid):
+        from cutplace import errors, validio
+
+        rows = DATASETS[self.d]
+        if not self.opened:
+            self.opened = True
+            if self.kind == "reader":
+                self.validator = validio.Reader(cid, source_for(self.d, storage.delimited_text(rows)), on_error="yield")
+                self.generator = self.validator.rows()
+            else:
+                self.target = io.StringIO(newline="")
+                self.validator = validio.Writer(cid, self.target)
+                self.position = 0
+            return
+        if self.kind == "reader" and not self.exhausted:
+            try:
+                item = next(self.generator)
+                self.items.append(err(item) if isinstance(item, Exception) else item)
+            except StopIteration:
+                self.exhausted = True
+            return
+        if self.kind == "writer" and self.position < len(rows):
+            try:
+                self.validator.write_row(rows[self.position])
+                self.items.append("written")
+            except errors.CutplaceError as e:
+                self.items.append(err(e))
+            self.position += 1
+            return
+        if not self.closed:
+            self.closed = True
+            try:
+                self.validator.close()
+                self.end = None
+            except errors.CutplaceError as e:
+                self.end = err(e)
+
+    def outcome(self):
+        out = {"items": self.items, "end": self.end}
+        if self.kind == "writer":
+            out["text"] = self.target.getvalue()
+        return out
+
+
+def check_overlap(ctx, cid_kind, runs, schedule):
+    """runs: [(kind, dataset)] * 2; schedule: sequence of 0/1 saying which run takes its next step."""
+    case = {"cid": cid_kind, "runs": [list(r) for r in runs], "schedule": list(schedule)}
+    ctx.case(case, True)
+    want = []
+    for kind, d in runs:
+        alone = Run(kind, d)
+        fresh = new_cid(cid_kind)
+        for _ in range(alone.steps()):
+            alone.step(fresh)
+        want.append(alone.outcome())
+    cid = new_cid(cid_kind)
+    live = [Run(kind, d) for kind, d in runs]
+    try:
+        for who in schedule:
+            live[who].step(cid)
+    except Exception as error:
+        ctx.violation("C08:overlap-crash:%s" % type(error).__name__, case, "interleaved runs on one CID failed with an internal error", observed=error)
+        return
+    ctx.count("overlapping-histories")
+    got = [r.outcome() for r in live]
+    first_b = schedule.index(1) if 1 in schedule else len(schedule)
+    last_a = max(i for i, w in enumerate(schedule) if w == 0)
+    sequential = first_b > last_a
+    if got != want:
+        key = "C08:read-after-read" if sequential else "C08:overlapping-runs-share-check-state"
+        ctx.violation(key, case, "a run that overlaps in time with another run on the same CID has another outcome than on a freshly loaded CID",
+                      expected=want, observed=got)
+
+
 def family(kind):
     if kind.startswith("write"):
         return "write"
@@ -286,7 +373,31 @@ def run(ctx):
         rng = ctx.rng("hist", i)
         history = tuple(rng.choice(ops) for _ in range(rng.randint(lo, hi)))
         check_history(ctx, rng.choice(sorted(CIDS)), history, compare_all=True)
+    for i in range(ctx.pick(600, 12000)):
+        if ctx.mine(i):
+            overlap_case(ctx, i)
+
+
+def overlap_case(ctx, i):
+    rng = ctx.rng("overlap", i)
+    runs = [(rng.choice(["reader", "writer"]), rng.choice([1, 2, 3])) for _ in range(2)]
+    counts = [Run(k, d).steps() for k, d in runs]
+    schedule = [0] * counts[0] + [1] * counts[1]
+    shape = rng.random()
+    if shape < 0.5:
+        rng.shuffle(schedule)  # any interleaving
+    elif shape < 0.75:
+        # lockstep, like copying the rows of a reader into a writer or comparing two files side by side
+        schedule = [w for pair in itertools.zip_longest([0] * counts[0], [1] * counts[1]) for w in pair if w is not None]
+    else:
+        # B runs completely while A is under way (or before A is closed)
+        cut = rng.randint(1, counts[0] - 1)
+        schedule = [0] * cut + [1] * counts[1] + [0] * (counts[0] - cut)
+    check_overlap(ctx, rng.choice(sorted(CIDS)), runs, schedule)
 
 
 def replay(ctx, case):
+    if "schedule" in case:
+        check_overlap(ctx, case["cid"], [tuple(r) for r in case["runs"]], case["schedule"])
+        return
     check_history(ctx, case["cid"], [tuple(op) for op in case["history"]], compare_all=True)
